@@ -66,6 +66,15 @@ def check(ctx, cfg):
     r7_errors(ctx, cfg)
     r8_layering(ctx, cfg)
     r9_overlay(ctx, cfg)
+    r10_reply_errors(ctx, cfg)
+
+
+def r10_reply_errors(ctx, cfg):
+    """"a top-level call either applies its entire message tree or nothing": an error anywhere in the tree reaches the top - in
+    particular the error of a reply (whose own messages have already been written to the enclosing cache by then) is never
+    swallowed by execute_submsg, and an entry point that was not supplied is an error (C02.R6 under C01's id)"""
+    from rules import C02
+    C02.r6(ctx, cfg, R="C01.R10")
 
 
 def r9_overlay(ctx, cfg):
@@ -109,7 +118,7 @@ def r1_inventory(ctx, cfg):
             if cls is None and _touches_no_chain_state(cfg, m["key"]):
                 # a new `&mut self` method that reaches neither App.storage nor App.router mutably (e.g. a setter of
                 # the block or the api) cannot change chain state: no classification needed
-                cls = "auto:no-chain-state"
+                cls = "auto:no-chain-state-of-its-own"
             ctx.ob("C01.R1", m["key"], "classified", cls is not None,
                    "`&mut self` method %s of App reaches App.storage / App.router and is not classified "
                    "(a new way to change chain state needs a decision)" % m["name"],
@@ -169,7 +178,7 @@ def r1_inventory(ctx, cfg):
                sample="storage handed to %s" % st_calls)
 
 
-def _touches_no_chain_state(cfg, key):
+def _touches_no_chain_state(cfg, key, _depth=0):
     """the method (with its closures) never names App.storage or App.router, hands `self` to nobody and passes no
     storage-typed argument to any callee"""
     F, P = cfg.facts, cfg.prov
@@ -186,8 +195,17 @@ def _touches_no_chain_state(cfg, key):
                     return False
             if any(q.is_storage_ty(ty) for ty in t["callee"].get("inputs", [])):
                 return False
-            for a in P.call_args(g, t, bid):
+            for ai, a in enumerate(P.call_args(g, t, bid)):
                 if is_param(a, "self"):
+                    # handing `self` on is fine when the receiver is an entry point that is classified already (a helper
+                    # composed of `update_block`, `execute`, .. changes chain state only the ways those do), a method of the
+                    # Executor trait (all of them funnel into execute) or another method that qualifies the same way
+                    ck = t["callee"]["key"]
+                    nm = t["callee"]["name"]
+                    if ai == 0 and ck == "app::App::" + nm and (nm in ENTRY_CLASSES or (_depth < 3 and ck != key and _touches_no_chain_state(cfg, ck, _depth + 1))):
+                        continue
+                    if ai == 0 and t["callee"].get("trait") == "executor::Executor":
+                        continue
                     return False
     return True
 
